@@ -1,10 +1,56 @@
+(* C17 -- Experiment randomization histories conserve labels and respect in_place.
+   Statements only; proofs in Proofs/ExperimentProofs.v. *)
+From Coq Require Import ZArith.
 From PV Require Import Lib.Base Model.Prng Model.Core Model.Experiment.
-Open Scope Q_scope.
-(* in_place=False never changes the caller's Experiment beyond the optional reseed *)
-Theorem C17_not_in_place_keeps_state : forall e rs fork e' out,
-  step e (Randomize false rs fork) = Ok (e', out) -> e' = reseeded e rs.
-Proof.
-  intros e rs fork e' out H. unfold step in H. cbn [bind] in H.
-  destruct (randomize_once _ _ _ _) as [gt|]; cbn [bind] in H; [|discriminate]. inversion H; reflexivity.
-Qed.
-Print Assumptions C17_not_in_place_keeps_state.
+From mathcomp Require Import all_ssreflect.
+From PV Require Import Proofs.ExperimentProofs.
+
+(* Invariant of every reachable state: over ANY finite sequence of randomize / sim_npc / westfall_young
+   operations with any mix of in_place, reseeding and forks, on any tapes, the responses, the strata and the
+   randomizer kind never change and the group vector is a rearrangement of the original labels.
+   [wf e0]: a stratified experiment has one stratum label per unit. *)
+Theorem C17_reachable_states_conserve_everything_but_the_assignment :
+  forall e0 ops e' outs, wf e0 -> run e0 ops = Ok (e', outs) ->
+  [/\ response e' = response e0, strata e' = strata e0, kind e' = kind e0,
+      perm_eq (group e') (group e0) & size (group e') = size (group e0)].
+Proof. intros e0 ops e' outs w H. exact (@run_Inv e0 w ops e0 e' outs (Inv_refl e0) H). Qed.
+Print Assumptions C17_reachable_states_conserve_everything_but_the_assignment.
+
+(* one step: only the assignment (and the generator) can change *)
+Theorem C17_step_changes_only_the_assignment : forall e o e' out, wfs (strata e) (group e) ->
+  step e o = Ok (e', out) ->
+  [/\ response e' = response e, strata e' = strata e, kind e' = kind e,
+      perm_eq (group e') (group e) & size (group e') = size (group e)].
+Proof. intros e o e' out w H. exact (step_fields w H). Qed.
+Print Assumptions C17_step_changes_only_the_assignment.
+
+(* in_place=False leaves the caller's Experiment exactly as it was (after the optional reseed): the
+   randomizations happen on a copy whose generator is the fork *)
+Theorem C17_not_in_place_leaves_state : forall e o e' out, step e o = Ok (e', out) ->
+  match o with
+  | Randomize false rs _ | SimNpc false rs _ _ _ _ | WestfallYoung false rs _ _ _ _ _ => e' = reseeded e rs
+  | _ => True
+  end.
+Proof. exact step_not_in_place. Qed.
+Print Assumptions C17_not_in_place_leaves_state.
+
+(* the stratified randomizer conserves the labels stratum by stratum: each pass rewrites only the positions of
+   one stratum with a rearrangement of the labels found there *)
+Theorem C17_stratified_pass_conserves_labels : forall (s : seq Z) labels (g : seq Z) t g' t',
+  size s = size g -> strata_loop g s labels t = Ok (g', t') -> perm_eq g' g /\ size g' = size g.
+Proof. exact strata_loop_perm. Qed.
+Print Assumptions C17_stratified_pass_conserves_labels.
+
+(* a seeded randomization from the same assignment is reproducible: step is a function of (state, op) *)
+Theorem C17_seeded_reproducible : forall e o r1 r2, step e o = r1 -> step e o = r2 -> r1 = r2.
+Proof. intros e o r1 r2 H1 H2. rewrite <- H1. exact H2. Qed.
+Print Assumptions C17_seeded_reproducible.
+
+Example C17_nonvacuous :
+  match run {| group := [:: 0; 1; 0; 1]%Z; response := [:: [:: 1%Q]; [:: 2%Q]; [:: 3%Q]; [:: 4%Q]]; strata := Some [:: 5; 5; 6; 6]%Z;
+               kind := Strat; gen := [:: 1; 0; 0; 0]%nat |}
+            [:: Randomize false None [:: 1; 0; 1; 0]%nat; Randomize true None [::]] with
+  | Ok (e, outs) => (group e == [:: 1; 0; 0; 1]%Z) && (size outs == 2%nat)
+  | Err _ => false
+  end = true.
+Proof. vm_compute. reflexivity. Qed.
